@@ -101,8 +101,11 @@ def iso_dir_name(cfg, k):
     return base + 'SUBDIRECTORY'[:k % 11]
 
 
-def long_name(k):
-    return ['f', 'some file ', 'Ünï-', '日本-'][k % 4] + str(k) + ['', '.txt', ' (copy).tar.gz'][k % 3]
+def long_name(k, very_long=False):
+    base = ['f', 'some file ', 'Ünï-', '日本-'][k % 4] + str(k) + ['', '.txt', ' (copy).tar.gz'][k % 3]
+    if very_long:
+        base = base + '-' + 'long-rock-ridge-name-' * (7 + k % 5)      # 150..260 bytes: continuation areas
+    return base
 
 
 # ---------------------------------------------------------------- history generation
@@ -132,7 +135,7 @@ class Shadow:
 
 
 def gen_history(rng, cfg, nops, empty_bias=0.25, allow_boot=True, allow_refusals=True, allow_symlinks=True,
-                allow_links=True, max_depth=6):
+                allow_links=True, max_depth=6, long_rr=0.04, link_bias=0.0, refusal_bias=0.0, fat_dir=0.0):
     """Returns list of op dicts.  Each op: kind + concrete string arguments."""
     sh = Shadow(cfg)
     ops = []
@@ -151,7 +154,7 @@ def gen_history(rng, cfg, nops, empty_bias=0.25, allow_boot=True, allow_refusals
             name = iso_dir_name(cfg, k) if kind == 'dir' else iso_file_name(cfg, k)
             out['iso'] = sh.join(d, name)
             if cfg.rr:
-                out['rr'] = (long_name(k) if k % 5 else 'n' + str(k))
+                out['rr'] = (long_name(k, rng.random() < long_rr) if k % 5 else 'n' + str(k))
         if cfg.joliet and rng.random() < 0.8:
             d = rng.choice([p for p in sh.dirs('jol') if sh.depth(p) < max_depth])
             out['jol'] = sh.join(d, long_name(k))
@@ -166,8 +169,15 @@ def gen_history(rng, cfg, nops, empty_bias=0.25, allow_boot=True, allow_refusals
                 sh.ns[n][paths[n]] = {'kind': kind, 'blob': blob, 'rr': paths.get('rr') if n == 'iso' else None,
                                       'target': target}
 
+    fat = rng.random() < fat_dir
     while len(ops) < nops:
         r = rng.random()
+        if link_bias and rng.random() < link_bias:
+            r = 0.62 + rng.random() * 0.18          # add_link / rm_link
+        if refusal_bias and rng.random() < refusal_bias:
+            r = 0.97
+        if fat and rng.random() < 0.7:
+            r = 0.1 if rng.random() < 0.8 else 0.5   # mostly add_fp, some rm_file
         nfiles = sum(len(sh.files(n)) for n in sh.ns)
         if r < 0.30 or nfiles == 0:
             want_iso = rng.random() < 0.9 or not (cfg.joliet or cfg.udf)
